@@ -1,6 +1,7 @@
 import Model.C15
 import Generated.C15
 import Proofs.C15
+import Proofs.C15.Loop
 /-!
 # C15 — keys route to the next ACTIVE partition; partition states follow legal edges
 
@@ -137,6 +138,51 @@ example : reconcileOthers (ringDel 4) cfgDel 10 = .ok (some { parts := [{ id := 
 /-- boundary: inactive for exactly the delay is not yet deleted (strict `<`). -/
 example : reconcileOthers (ringDel 5) cfgDel 10 = .ok none := by decide
 
+/-! ### the service loop (`starting`, the `select` loop of `running`, `stopping`)
+
+`Sys` = the shared ring + the service phase of every lifecycler; an `Act` is a service start (starting + the
+reconcile on entering `running`), one iteration of a lifecycler's select loop (`Event`: ticker, a
+`ChangePartitionState` received on the actor channel, `ctx.Done()` followed by `stopping`) or an editor call;
+`actOps` = the store updates (`Op`s) the implementation performs for it; `sysRun` = a whole schedule. -/
+
+/-- **legal edges on every loop run**: whatever the state of the system, the store updates of one act — applied
+one after the other, as the loop does — each respect the state machine (legal edge, not while locked, new
+partitions PENDING). Holding for every state it holds along every schedule of any number of lifecyclers. -/
+theorem loop_state_edges (ls : List Loop) (s : Sys) (a : Act) :
+    (sysStep ls s a).ring = (actOps ls s a).foldl C15.apply s.ring ∧
+    ∀ i, i < (actOps ls s a).length →
+      StepOK (((actOps ls s a).take i).foldl C15.apply s.ring) (((actOps ls s a).take (i + 1)).foldl C15.apply s.ring) :=
+  sysStep_edges ls s a
+
+/-- an update keeps every owner entry it does not explicitly register (`create`/`wait` of that id) or remove
+(`stopping` with owner removal of that id, `RemoveMultiPartitionOwner` of that id): ticks, actor requests,
+state changes, locks and other lifecyclers never lose somebody's registration. -/
+theorem untouched_owner_survives (ops : List Op) (d : PDesc) (o : Owner) (ho : o ∈ d.owners)
+    (hn : ∀ op ∈ ops, ¬ touches op o.id) : o ∈ (ops.foldl C15.apply d).owners :=
+  foldl_keeps_owner ops d o ho hn
+
+/-- **registrations are never lost**: start from any system in which no loop is running yet; along every
+schedule of service starts, loop iterations (ticks, actor requests, stops) of lifecyclers with pairwise
+different owner ids and editor calls that do not remove the owner of a running lifecycler, every lifecycler
+whose loop is running is registered as an ACTIVE owner of its partition. -/
+theorem loop_keeps_registrations (ls : List Loop) (hd : DistinctOwners ls) (s : Sys) (hnew : ∀ i, s.phase i ≠ .running)
+    (as : List Act) (hg : GoodRun ls s as) : RunningRegistered ls (sysRun ls s as) :=
+  sysRun_registered ls hd as s (fun i _ _ h => absurd h (hnew i)) hg
+
+/-- a successful `starting` (create-and-register or wait-and-register) registers the lifecycler -/
+theorem starting_registers (l : Loop) (d : PDesc) (tokens : List Nat) (now : Int) (r : Option PDesc)
+    (h : step d (l.startOp tokens now) = .ok r) : Registered l (C15.apply d (l.startOp tokens now)) :=
+  start_registers l d tokens now r h
+
+def loopEx : Loop := { cfg := { pid := 1, inst := "a", waitCount := 0 } }
+example : (sysRun [loopEx] { ring := {}, phase := fun _ => .new }
+      [.start 0 [5] 10 (11, 11), .event 0 (.actor sInactive 12), .event 0 (.tick 13 13)]).ring =
+    { parts := [{ id := 1, state := sInactive, stateTs := 12, tokens := [5] }], owners := [{ id := "a", partition := 1, updatedTs := 10 }] } := by
+  decide
+example : DistinctOwners [loopEx] := by
+  intro i j li lj hi hj _
+  cases i <;> cases j <;> simp_all
+
 /-! ### replication sets -/
 
 /-- **per-partition replication set** (`GetReplicationSetsForOperation`): exactly the partition's
@@ -174,8 +220,10 @@ theorem multi_healthy_owners (d : PDesc) (insts : Ring.Desc) (hs : List Bool) (t
 /-- **multi-partition variant** (`GetReplicationSetForPartitionAndOperation`): on success the set has
 exactly one member per zone of the healthy registered owners (in first-appearance order of the zones);
 each member is a healthy registered owner in that zone, is non-read-only whenever its zone has a
-non-read-only healthy owner, and no healthy owner of its zone and read-only class has a higher numeric id
-suffix; `MaxUnavailableZones = #zones - 1`. -/
+non-read-only healthy owner, no healthy owner of its zone and read-only class has a higher numeric id
+suffix, and every healthy owner of its zone listed AFTER it is strictly worse (read-only against non-read-only, or a
+strictly lower suffix) — i.e. ties go to the later owner, exactly the loop of
+`highestPreferablyNonReadOnlyFromEachZone`, which determines the member uniquely; `MaxUnavailableZones = #zones - 1`. -/
 theorem multi_replset_exact (d : PDesc) (insts : Ring.Desc) (hs : List Bool) (t now : Int) (pid : Int)
     (ids : List String) (mu : Nat) (h : multiReplSet d insts hs t now pid = .ok (ids, mu)) :
     let found := multiFound d insts hs t now pid
@@ -184,7 +232,9 @@ theorem multi_replset_exact (d : PDesc) (insts : Ring.Desc) (hs : List Bool) (t 
     ∃ picks : List (String × Ring.Inst), ids = picks.map (·.2.id) ∧
       Forall2 (fun z c => c ∈ found ∧ c.2.zone = z ∧
         (∀ x ∈ found, x.2.zone = z → c.2.ro = true → x.2.ro = true) ∧
-        (∀ x ∈ found, x.2.zone = z → x.2.ro = c.2.ro → idxLt (indexFromSuffix c.1) (indexFromSuffix x.1) = false))
+        (∀ x ∈ found, x.2.zone = z → x.2.ro = c.2.ro → idxLt (indexFromSuffix c.1) (indexFromSuffix x.1) = false) ∧
+        (∃ A B, found = A ++ c :: B ∧ ∀ x ∈ B, x.2.zone = z →
+          (x.2.ro = true ∧ c.2.ro = false) ∨ (x.2.ro = c.2.ro ∧ idxLt (indexFromSuffix x.1) (indexFromSuffix c.1) = true)))
         zones picks :=
   multiReplSet_exact d insts hs t now pid ids mu h
 
